@@ -337,14 +337,14 @@ func SortedKeys[V any](mp map[string]V) []string {
 // offered by the planner, with generated tuples; the generic generator reaches
 // these shapes only rarely.
 func FamilyWorld(t *rapid.T, o Opts) World {
-	return familyWorld(t, o, rapid.IntRange(0, 7).Draw(t, "family"))
+	return familyWorld(t, o, rapid.IntRange(0, 8).Draw(t, "family"))
 }
 
 // CycleWorld draws a world from the families whose relations are mutually
 // recursive (6: through a TTU, 7: through usersets); with the few object ids of
 // the generator, cycles in the stored tuples are the common case.
 func CycleWorld(t *rapid.T, o Opts) World {
-	fam := []int{6, 7, 2, 5}[rapid.IntRange(0, 3).Draw(t, "cycleFamily")]
+	fam := []int{6, 7, 2, 5, 3}[rapid.IntRange(0, 4).Draw(t, "cycleFamily")]
 	w := familyWorld(t, o, fam)
 	if len(w.Model.Conds) > 0 || chance(t, "cycleRandomTuples", 25) {
 		return w
@@ -353,6 +353,7 @@ func CycleWorld(t *rapid.T, o Opts) World {
 	// most answers then depend on derivations that run through the cycles
 	var ts []m.Tuple
 	n := o.MaxIDs
+	tn := CycleType(w)
 	link := func(label string, pct int, obj, rel, user string) {
 		if chance(t, label, pct) && user != obj+"#"+rel { // a tuple relating a userset to itself is implicit and cannot be written
 			ts = append(ts, m.Tuple{Object: obj, Relation: rel, User: user})
@@ -360,10 +361,12 @@ func CycleWorld(t *rapid.T, o Opts) World {
 	}
 	for i := 0; i < n; i++ {
 		for j := 0; j < n; j++ {
-			gi, gj := fmt.Sprintf("group:%d", i), fmt.Sprintf("group:%d", j)
+			gi, gj := fmt.Sprintf("%s:%d", tn, i), fmt.Sprintf("%s:%d", tn, j)
 			switch fam {
 			case 6:
 				link("link", 40, gi, "parent", gj)
+			case 3:
+				link("link", 35, gi, "parent", gj)
 			case 7:
 				link("link01", 30, gi, "r0", gj+"#r1")
 				link("link10", 30, gi, "r1", gj+"#r0")
@@ -377,8 +380,8 @@ func CycleWorld(t *rapid.T, o Opts) World {
 	}
 	for i := 0; i < n; i++ {
 		for _, rel := range []string{"r0", "r1", "r2"} {
-			if r := w.Model.Relation("group", rel); r != nil && r.Rewrite.HasThis() {
-				link("grant", 15, fmt.Sprintf("group:%d", i), rel, "user:0")
+			if r := w.Model.Relation(tn, rel); r != nil && r.Rewrite.HasThis() {
+				link("grant", 15, fmt.Sprintf("%s:%d", tn, i), rel, "user:0")
 			}
 		}
 	}
@@ -395,6 +398,9 @@ func CycleWorld(t *rapid.T, o Opts) World {
 	}
 	return World{Model: w.Model, Tuples: valid}
 }
+
+// CycleType names the object type whose relations are recursive in a CycleWorld.
+func CycleType(w World) string { return w.Model.Types[1].Name }
 
 func familyWorld(t *rapid.T, o Opts, family int) World {
 	this := func() *m.Rewrite { return &m.Rewrite{Kind: m.This} }
@@ -434,6 +440,21 @@ func familyWorld(t *rapid.T, o Opts, family int) World {
 				{Name: "r0", Rewrite: this(), Restr: []m.Restriction{user, {Type: "group", Rel: "r0"}}},
 				{Name: "r1", Rewrite: this(), Restr: []m.Restriction{user, {Type: "group", Rel: "r0"}}},
 				{Name: "r2", Rewrite: &m.Rewrite{Kind: op, Children: []*m.Rewrite{{Kind: m.Computed, Rel: "r0"}, {Kind: m.Computed, Rel: "r1"}}}}}})
+	case 8: // weight-2 userset / TTU whose target relation is itself an exclusion or intersection over a base that takes users and the wildcard
+		op := m.Difference
+		if chance(t, "famIntersection", 40) {
+			op = m.Intersection
+		}
+		both := []m.Restriction{user, {Type: "user", Wildcard: true}}
+		types = append(types,
+			m.TypeDef{Name: "group", Relations: []m.Relation{
+				{Name: "r0", Rewrite: this(), Restr: both},
+				{Name: "r1", Rewrite: this(), Restr: userRestr},
+				{Name: "r2", Rewrite: &m.Rewrite{Kind: op, Children: []*m.Rewrite{{Kind: m.Computed, Rel: "r0"}, {Kind: m.Computed, Rel: "r1"}}}}}},
+			m.TypeDef{Name: "doc", Relations: []m.Relation{
+				{Name: "parent", Rewrite: this(), Restr: []m.Restriction{{Type: "group"}}},
+				{Name: "r0", Rewrite: this(), Restr: []m.Restriction{{Type: "group", Rel: "r2"}}},
+				{Name: "r1", Rewrite: &m.Rewrite{Kind: m.TTU, Tupleset: "parent", Rel: "r2"}}}})
 	case 6: // mutually recursive relations through a TTU (tuple cycles over parent are likely)
 		types = append(types, m.TypeDef{Name: "group", Relations: []m.Relation{
 			{Name: "parent", Rewrite: this(), Restr: []m.Restriction{{Type: "group"}}},
@@ -466,6 +487,30 @@ func familyWorld(t *rapid.T, o Opts, family int) World {
 					r.Restr = append(r.Restr, m.Restriction{Type: "user", Cond: c.Name})
 				}
 			}
+		}
+	}
+	if family == 8 && len(mo.Conds) == 0 && chance(t, "famDense", 60) {
+		// the same group often carries the concrete-user tuple, the wildcard tuple and the subtracted user
+		var ts []m.Tuple
+		add := func(label string, pct int, obj, rel, user string) {
+			if chance(t, label, pct) {
+				ts = append(ts, m.Tuple{Object: obj, Relation: rel, User: user})
+			}
+		}
+		for g := 0; g < o.MaxIDs; g++ {
+			gn := fmt.Sprintf("group:%d", g)
+			add("base", 60, gn, "r0", "user:0")
+			add("baseWild", 60, gn, "r0", "user:*")
+			add("other", 50, gn, "r1", "user:0")
+			add("base1", 30, gn, "r0", "user:1")
+			for d := 0; d < o.MaxIDs; d++ {
+				dn := fmt.Sprintf("doc:%d", d)
+				add("viaUserset", 35, dn, "r0", gn+"#r2")
+				add("viaParent", 35, dn, "parent", gn)
+			}
+		}
+		if len(ts) > 0 {
+			return World{Model: mo, Tuples: ts}
 		}
 	}
 	v, l := Tuples(t, mo, o)
